@@ -130,25 +130,40 @@ Proof.
   assert (existsb p l = true) by (apply existsb_exists; exists x; split; assumption). congruence.
 Qed.
 
+
+(** * The development is generic in the matcher
+
+    [MX] is the per-column predicate of the matcher and [mm] the row-level matcher; the code as it is has
+    [col_M] / [matcher_matches], the repaired code (C10-fix-2) [col_Mf] / [matcher_matches_fixed].  All that is
+    used: the matcher accepts a row only if Go's == on the coerced, hashed values does. *)
+Definition conj_over (P : column -> goval -> dval -> bool) (t : table) (f : filter) (r : drow) : bool :=
+  forallb (fun c => on_col f true (fun c v => P c v (cell r (c_name c))) c) (t_cols t).
+
+Section Generic.
+Variable MX : column -> goval -> dval -> bool.
+Variable mm : table -> filter -> drow -> bool.
+Hypothesis MX_sub : forall c v d, MX c v d = true -> col_M c v d = true.
+Hypothesis mm_conj : forall t f r, mm t f r = conj_over MX t f r.
+
 Lemma col_agrees_sound : forall c v d,
-  column_ok c = true -> col_agrees c v = true -> representable c d = true -> col_M c v d = col_W c v d.
+  column_ok c = true -> col_agrees_g MX c v = true -> representable c d = true -> MX c v d = col_W c v d.
 Proof.
-  intros c v d Hc H Hr. destruct (col_M c v d) eqn:Em; destruct (col_W c v d) eqn:Ew; try reflexivity.
-  - assert (Hin := cands_complete c v d Hc Hr (or_introl Em)).
-    unfold col_agrees in H. rewrite forallb_forall in H. specialize (H d Hin). rewrite Hr, Em, Ew in H. discriminate.
+  intros c v d Hc H Hr. destruct (MX c v d) eqn:Em; destruct (col_W c v d) eqn:Ew; try reflexivity.
+  - assert (Hin := cands_complete c v d Hc Hr (or_introl (MX_sub _ _ _ Em))).
+    unfold col_agrees_g in H. rewrite forallb_forall in H. specialize (H d Hin). rewrite Hr, Em, Ew in H. discriminate.
   - assert (Hin := cands_complete c v d Hc Hr (or_intror Ew)).
-    unfold col_agrees in H. rewrite forallb_forall in H. specialize (H d Hin). rewrite Hr, Em, Ew in H. discriminate.
+    unfold col_agrees_g in H. rewrite forallb_forall in H. specialize (H d Hin). rewrite Hr, Em, Ew in H. discriminate.
 Qed.
 
 Lemma col_agrees_complete : forall c v,
-  (forall d, representable c d = true -> col_M c v d = col_W c v d) -> col_agrees c v = true.
+  (forall d, representable c d = true -> MX c v d = col_W c v d) -> col_agrees_g MX c v = true.
 Proof.
-  intros c v H. unfold col_agrees. apply forallb_forall. intros d _.
+  intros c v H. unfold col_agrees_g. apply forallb_forall. intros d _.
   destruct (representable c d) eqn:Er; [|reflexivity]. rewrite (H d Er). cbn [negb orb]. apply eqb_reflx.
 Qed.
 
-Lemma col_agrees_false : forall c v, col_agrees c v = false ->
-  exists d, In d (col_cands c v) /\ representable c d = true /\ col_M c v d <> col_W c v d.
+Lemma col_agrees_false : forall c v, col_agrees_g MX c v = false ->
+  exists d, In d (col_cands c v) /\ representable c d = true /\ MX c v d <> col_W c v d.
 Proof.
   intros c v H. destruct (forallb_false_exists _ _ _ H) as (d & Hin & Hp). exists d. split; [exact Hin|].
   destruct (representable c d); [|discriminate]. split; [reflexivity|]. cbn [negb orb] in Hp.
@@ -164,11 +179,11 @@ Proof.
 Qed.
 
 Lemma col_m_empty_sound : forall c v d,
-  column_ok c = true -> col_m_empty c v = true -> representable c d = true -> col_M c v d = false.
+  column_ok c = true -> col_m_empty_g MX c v = true -> representable c d = true -> MX c v d = false.
 Proof.
-  intros c v d Hc H Hr. destruct (col_M c v d) eqn:Em; [|reflexivity].
-  assert (Hin := cands_complete c v d Hc Hr (or_introl Em)).
-  unfold col_m_empty in H. rewrite forallb_forall in H. specialize (H d Hin). rewrite Hr, Em in H. discriminate.
+  intros c v d Hc H Hr. destruct (MX c v d) eqn:Em; [|reflexivity].
+  assert (Hin := cands_complete c v d Hc Hr (or_introl (MX_sub _ _ _ Em))).
+  unfold col_m_empty_g in H. rewrite forallb_forall in H. specialize (H d Hin). rewrite Hr, Em in H. discriminate.
 Qed.
 
 Lemma col_w_nonempty : forall c v, col_w_empty c v = false ->
@@ -178,19 +193,14 @@ Proof.
   apply negb_false_iff in Hp. apply andb_prop in Hp. exact Hp.
 Qed.
 
-Lemma col_m_nonempty : forall c v, col_m_empty c v = false ->
-  exists d, In d (col_cands c v) /\ representable c d = true /\ col_M c v d = true.
+Lemma col_m_nonempty : forall c v, col_m_empty_g MX c v = false ->
+  exists d, In d (col_cands c v) /\ representable c d = true /\ MX c v d = true.
 Proof.
   intros c v H. destruct (forallb_false_exists _ _ _ H) as (d & Hin & Hp). exists d. split; [exact Hin|].
   apply negb_false_iff in Hp. apply andb_prop in Hp. exact Hp.
 Qed.
 
 (** * The matcher and the caller's WHERE clause as conjunctions over the table's columns *)
-Definition conj_over (P : column -> goval -> dval -> bool) (t : table) (f : filter) (r : drow) : bool :=
-  forallb (fun c => on_col f true (fun c v => P c v (cell r (c_name c))) c) (t_cols t).
-
-Lemma matcher_conj : forall t f r, matcher_matches t f r = conj_over col_M t f r.
-Proof. reflexivity. Qed.
 
 Lemma where_conj : forall t f r, is_tt (eval_simple (dfilter_of t f) r) = conj_over col_W t f r.
 Proof.
@@ -208,14 +218,14 @@ Proof. intros t c H Hin. unfold columns_ok in H. rewrite forallb_forall in H. ap
 
 (** * Sufficiency *)
 Lemma transparent_matcher_is_where : forall t f r,
-  columns_ok t = true -> filter_transparent t f = true -> row_representable t r = true ->
-  matcher_matches t f r = is_tt (eval_simple (dfilter_of t f) r).
+  columns_ok t = true -> filter_transparent_g MX t f = true -> row_representable t r = true ->
+  mm t f r = is_tt (eval_simple (dfilter_of t f) r).
 Proof.
-  intros t f r Hc Ht Hr. rewrite matcher_conj, where_conj. unfold filter_transparent in Ht.
+  intros t f r Hc Ht Hr. rewrite mm_conj, where_conj. unfold filter_transparent_g in Ht.
   apply andb_prop in Ht. destruct Ht as [_ Ht]. apply orb_prop in Ht. destruct Ht as [Ha|He].
   - unfold conj_over. rewrite forallb_forall in Ha.
     assert (G : forall l, (forall c, In c l -> In c (t_cols t)) ->
-      forallb (fun c => on_col f true (fun c v => col_M c v (cell r (c_name c))) c) l
+      forallb (fun c => on_col f true (fun c v => MX c v (cell r (c_name c))) c) l
       = forallb (fun c => on_col f true (fun c v => col_W c v (cell r (c_name c))) c) l).
     { induction l as [|c l IH]; intros Hl; [reflexivity|]. cbn [forallb]. f_equal.
       - assert (Hin := Hl c (or_introl eq_refl)). specialize (Ha c Hin). unfold on_col in *.
@@ -237,9 +247,9 @@ Qed.
 (** One caller among arbitrary companions (transparent or not). *)
 Theorem batched_one_transparent : forall t fs f contents,
   table_ok t = true -> columns_ok t = true -> In f fs ->
-  filter_transparent t f = true ->
+  filter_transparent_g MX t f = true ->
   forallb (row_representable t) contents = true ->
-  List.filter (matcher_matches t f) (select_rows (batch_wclause t fs) contents) = unbatched_result t f contents.
+  List.filter (mm t f) (select_rows (batch_wclause t fs) contents) = unbatched_result t f contents.
 Proof.
   intros t fs f contents Ht Hc Hf Hty Hrep.
   unfold unbatched_result, select_rows.
@@ -259,33 +269,33 @@ Qed.
 
 Theorem batched_transparent_exact : forall t fs contents,
   table_ok t = true -> columns_ok t = true ->
-  forallb (filter_transparent t) fs = true ->
+  forallb (filter_transparent_g MX t) fs = true ->
   forallb (row_representable t) contents = true ->
-  batched_results t fs contents = map (fun f => unbatched_result t f contents) fs.
+  batched_results_g mm t fs contents = map (fun f => unbatched_result t f contents) fs.
 Proof.
-  intros t fs contents Ht Hc Hty Hrep. unfold batched_results. apply map_ext_in. intros f Hf.
+  intros t fs contents Ht Hc Hty Hrep. unfold batched_results_g. apply map_ext_in. intros f Hf.
   rewrite forallb_forall in Hty. apply batched_one_transparent; auto.
 Qed.
 
 Lemma nth_filter_transparent : forall t fs i,
-  forallb (filter_transparent t) fs = true -> filter_transparent t (nth_filter fs i) = true.
+  forallb (filter_transparent_g MX t) fs = true -> filter_transparent_g MX t (nth_filter fs i) = true.
 Proof.
   intros t fs i H. unfold nth_filter. destruct (Nat.ltb i (List.length fs)) eqn:E.
   - apply Nat.ltb_lt in E. rewrite forallb_forall in H. apply H. apply nth_In. exact E.
   - apply Nat.ltb_ge in E. rewrite nth_overflow by exact E.
-    unfold filter_transparent, filter_comparable. apply andb_true_intro. split.
+    unfold filter_transparent_g, filter_comparable. apply andb_true_intro. split.
     + apply forallb_forall. intros c _. reflexivity.
     + apply orb_true_intro. left. apply forallb_forall. intros c _. reflexivity.
 Qed.
 
 Theorem batched_transparent_exact_any_arrival : forall t fs arrival contents,
   table_ok t = true -> columns_ok t = true ->
-  forallb (filter_transparent t) fs = true ->
+  forallb (filter_transparent_g MX t) fs = true ->
   forallb (row_representable t) contents = true ->
   Forall (fun ir => snd ir = unbatched_result t (nth_filter fs (fst ir)) contents)
-         (batched_by_arrival t fs arrival contents).
+         (batched_by_arrival_g mm t fs arrival contents).
 Proof.
-  intros t fs arrival contents Ht Hc Hty Hrep. unfold batched_by_arrival.
+  intros t fs arrival contents Ht Hc Hty Hrep. unfold batched_by_arrival_g.
   apply Forall_forall. intros [i rows] Hin. apply in_concat in Hin. destruct Hin as (l & Hl & Hin).
   apply in_map_iff in Hl. destruct Hl as (b & <- & Hb).
   rewrite (batched_transparent_exact t (map (nth_filter fs) b) contents Ht Hc) in Hin; [|
@@ -295,34 +305,6 @@ Proof.
   clear Hb. induction b as [|j b IH]; [contradiction|]. simpl in Hin. destruct Hin as [Hin|Hin].
   - inversion Hin; subst. reflexivity.
   - apply IH. exact Hin.
-Qed.
-
-(** * The earlier hypothesis implies the exact one *)
-Lemma scalar_comparable : forall c v, scalar_typed (base_ty (c_ty c)) v = true -> comparable c (base_dval v) = true.
-Proof.
-  intros c v H. unfold comparable. destruct (base_ty (c_ty c)); destruct v; simpl in H; try discriminate; reflexivity.
-Qed.
-
-Lemma exactly_typed_comparable : forall c v,
-  exactly_typed c v = true -> comparable c (valuer (c_implicitnull c) v) = true.
-Proof.
-  intros c v H. destruct (exactly_typed_shape _ _ H) as [fv Hc Hv _ _|a v' Hv _|v' Hv].
-  - rewrite Hv. reflexivity.
-  - cbn [valuer]. apply scalar_comparable. exact Hv.
-  - destruct (valuer_scalar _ _ (c_implicitnull c) Hv) as [E _]. rewrite E.
-    destruct (c_implicitnull c && is_zero v'); [reflexivity|apply scalar_comparable; exact Hv].
-Qed.
-
-Theorem exactly_typed_transparent : forall t f,
-  columns_ok t = true -> filter_exactly_typed t f = true -> filter_transparent t f = true.
-Proof.
-  intros t f Hc H. unfold filter_exactly_typed in H. rewrite forallb_forall in H.
-  unfold filter_transparent, filter_comparable. apply andb_true_intro. split.
-  - apply forallb_forall. intros c Hin. specialize (H c Hin). unfold on_col.
-    destruct (lookup (c_name c) f) as [v|]; [|reflexivity]. apply exactly_typed_comparable. exact H.
-  - apply orb_true_intro. left. apply forallb_forall. intros c Hin. specialize (H c Hin). unfold on_col.
-    destruct (lookup (c_name c) f) as [v|]; [|reflexivity]. apply col_agrees_complete. intros d Hr.
-    exact (column_match c v d (column_ok_in t c Hc Hin) H Hr).
 Qed.
 
 (** * Necessity *)
@@ -443,18 +425,18 @@ Proof. intros f p c H. unfold on_col in H. destruct (lookup (c_name c) f) as [v|
 
 Theorem witness_separates : forall t f,
   columns_ok t = true -> cols_distinct t = true ->
-  filter_comparable t f = true -> filter_transparent t f = false ->
-  exists r, In r (witness_rows t f) /\ row_representable t r = true
-            /\ matcher_matches t f r <> is_tt (eval_simple (dfilter_of t f) r).
+  filter_comparable t f = true -> filter_transparent_g MX t f = false ->
+  exists r, In r (witness_rows_g MX t f) /\ row_representable t r = true
+            /\ mm t f r <> is_tt (eval_simple (dfilter_of t f) r).
 Proof.
-  intros t f Hc Hd Hcmp Ht. unfold filter_transparent in Ht. rewrite Hcmp in Ht. cbn [andb] in Ht.
+  intros t f Hc Hd Hcmp Ht. unfold filter_transparent_g in Ht. rewrite Hcmp in Ht. cbn [andb] in Ht.
   apply orb_false_elim in Ht. destruct Ht as [Ha He].
   destruct (forallb_false_exists _ _ _ Ha) as (c0 & Hin0 & Ha0).
   destruct (on_col_false_some _ _ _ Ha0) as (v0 & E0 & Hag). clear Ha Ha0.
   destruct (col_agrees_false _ _ Hag) as (d0 & Hd0 & Hr0 & Hne). clear Hag.
-  assert (nonM : existsb (on_col f false col_m_empty) (t_cols t) = false ->
+  assert (nonM : existsb (on_col f false (col_m_empty_g MX)) (t_cols t) = false ->
           forall c v, In c (t_cols t) -> lookup (c_name c) f = Some v ->
-            exists d, In d (col_cands c v) /\ representable c d = true /\ col_M c v d = true).
+            exists d, In d (col_cands c v) /\ representable c d = true /\ MX c v d = true).
   { intros Hm c v Hin E. assert (F := existsb_false_all _ _ _ c Hm Hin). unfold on_col in F. rewrite E in F.
     apply col_m_nonempty. exact F. }
   assert (nonW : existsb (on_col f false col_w_empty) (t_cols t) = false ->
@@ -462,39 +444,39 @@ Proof.
             exists d, In d (col_cands c v) /\ representable c d = true /\ col_W c v d = true).
   { intros Hw c v Hin E. assert (F := existsb_false_all _ _ _ c Hw Hin). unfold on_col in F. rewrite E in F.
     apply col_w_nonempty. exact F. }
-  assert (useM : conj_over col_M t f (row_pick col_M col_W t f) = true ->
-                 conj_over col_W t f (row_pick col_M col_W t f) = false ->
-                 exists r, In r (witness_rows t f) /\ row_representable t r = true
-                           /\ matcher_matches t f r <> is_tt (eval_simple (dfilter_of t f) r)).
-  { intros H1 H2. exists (row_pick col_M col_W t f). split; [left; reflexivity|]. split; [apply row_pick_rep; assumption|].
-    rewrite matcher_conj, where_conj, H1, H2. discriminate. }
-  assert (useW : conj_over col_W t f (row_pick col_W col_M t f) = true ->
-                 conj_over col_M t f (row_pick col_W col_M t f) = false ->
-                 exists r, In r (witness_rows t f) /\ row_representable t r = true
-                           /\ matcher_matches t f r <> is_tt (eval_simple (dfilter_of t f) r)).
-  { intros H1 H2. exists (row_pick col_W col_M t f). split; [right; left; reflexivity|]. split; [apply row_pick_rep; assumption|].
-    rewrite matcher_conj, where_conj, H1, H2. discriminate. }
+  assert (useM : conj_over MX t f (row_pick MX col_W t f) = true ->
+                 conj_over col_W t f (row_pick MX col_W t f) = false ->
+                 exists r, In r (witness_rows_g MX t f) /\ row_representable t r = true
+                           /\ mm t f r <> is_tt (eval_simple (dfilter_of t f) r)).
+  { intros H1 H2. exists (row_pick MX col_W t f). split; [left; reflexivity|]. split; [apply row_pick_rep; assumption|].
+    rewrite mm_conj, where_conj, H1, H2. discriminate. }
+  assert (useW : conj_over col_W t f (row_pick col_W MX t f) = true ->
+                 conj_over MX t f (row_pick col_W MX t f) = false ->
+                 exists r, In r (witness_rows_g MX t f) /\ row_representable t r = true
+                           /\ mm t f r <> is_tt (eval_simple (dfilter_of t f) r)).
+  { intros H1 H2. exists (row_pick col_W MX t f). split; [right; left; reflexivity|]. split; [apply row_pick_rep; assumption|].
+    rewrite mm_conj, where_conj, H1, H2. discriminate. }
   destruct (existsb (on_col f false col_w_empty) (t_cols t)) eqn:Ew;
-    destruct (existsb (on_col f false col_m_empty) (t_cols t)) eqn:Em.
+    destruct (existsb (on_col f false (col_m_empty_g MX)) (t_cols t)) eqn:Em.
   - discriminate.
   - (* some column selects nothing, the matcher accepts something in every column *)
     apply existsb_exists in Ew. destruct Ew as (c1 & Hin1 & Hw1). destruct (on_col_true_some _ _ _ Hw1) as (v1 & E1 & Hw).
     apply useM.
     + apply row_pick_P; [exact Hd|apply nonM; reflexivity].
-    + apply (row_pick_notQ_empty col_M col_W t f c1 v1 Hc Hd Hin1 E1).
+    + apply (row_pick_notQ_empty MX col_W t f c1 v1 Hc Hd Hin1 E1).
       intros d Hr. apply col_w_empty_sound; [apply (column_ok_in t); assumption|exact Hw|exact Hr].
   - apply existsb_exists in Em. destruct Em as (c1 & Hin1 & Hm1). destruct (on_col_true_some _ _ _ Hm1) as (v1 & E1 & Hm).
     apply useW.
     + apply row_pick_P; [exact Hd|apply nonW; reflexivity].
-    + apply (row_pick_notQ_empty col_W col_M t f c1 v1 Hc Hd Hin1 E1).
+    + apply (row_pick_notQ_empty col_W MX t f c1 v1 Hc Hd Hin1 E1).
       intros d Hr. apply col_m_empty_sound; [apply (column_ok_in t); assumption|exact Hm|exact Hr].
-  - destruct (col_M c0 v0 d0) eqn:M0; destruct (col_W c0 v0 d0) eqn:W0; try (exfalso; apply Hne; reflexivity).
+  - destruct (MX c0 v0 d0) eqn:M0; destruct (col_W c0 v0 d0) eqn:W0; try (exfalso; apply Hne; reflexivity).
     + apply useM.
       * apply row_pick_P; [exact Hd|apply nonM; reflexivity].
-      * apply (row_pick_notQ_elem col_M col_W t f c0 v0 d0); assumption.
+      * apply (row_pick_notQ_elem MX col_W t f c0 v0 d0); assumption.
     + apply useW.
       * apply row_pick_P; [exact Hd|apply nonW; reflexivity].
-      * apply (row_pick_notQ_elem col_W col_M t f c0 v0 d0); assumption.
+      * apply (row_pick_notQ_elem col_W MX t f c0 v0 d0); assumption.
 Qed.
 
 Lemma where_in_order_nil : forall cols, where_in_order cols [] = [].
@@ -509,28 +491,358 @@ Qed.
 (** A filter outside [filter_transparent], in the company of one empty filter, on a one-row table. *)
 Theorem transparency_necessary : forall t f,
   columns_ok t = true -> cols_distinct t = true ->
-  filter_comparable t f = true -> filter_transparent t f = false ->
-  exists r, In r (witness_rows t f) /\ row_representable t r = true
-            /\ hd [] (batched_results t [f; []] [r]) <> unbatched_result t f [r].
+  filter_comparable t f = true -> filter_transparent_g MX t f = false ->
+  exists r, In r (witness_rows_g MX t f) /\ row_representable t r = true
+            /\ hd [] (batched_results_g mm t [f; []] [r]) <> unbatched_result t f [r].
 Proof.
   intros t f Hc Hd Hcmp Ht. destruct (witness_separates t f Hc Hd Hcmp Ht) as (r & Hin & Hr & Hne).
   exists r. split; [exact Hin|]. split; [exact Hr|].
-  unfold batched_results. rewrite with_empty_filter_fetches_all. cbn [map hd List.filter].
+  unfold batched_results_g. rewrite with_empty_filter_fetches_all. cbn [map hd List.filter].
   unfold unbatched_result, select_rows. cbn [List.filter eval_wclause].
-  destruct (matcher_matches t f r); destruct (is_tt (eval_simple (dfilter_of t f) r));
+  destruct (mm t f r); destruct (is_tt (eval_simple (dfilter_of t f) r));
     try discriminate; exfalso; apply Hne; reflexivity.
 Qed.
 
 Theorem transparency_exact : forall t f,
   table_ok t = true -> columns_ok t = true -> cols_distinct t = true -> filter_comparable t f = true ->
+  (filter_transparent_g MX t f = true <->
+   forall others contents, forallb (row_representable t) contents = true ->
+     hd [] (batched_results_g mm t (f :: others) contents) = unbatched_result t f contents).
+Proof.
+  intros t f Ht Hc Hd Hcmp. split.
+  - intros H others contents Hrep. unfold batched_results_g. cbn [map hd].
+    apply batched_one_transparent; auto. left; reflexivity.
+  - intros H. destruct (filter_transparent_g MX t f) eqn:E; [reflexivity|].
+    destruct (transparency_necessary t f Hc Hd Hcmp E) as (r & _ & Hr & Hne).
+    exfalso. apply Hne. apply H. cbn [forallb]. rewrite Hr. reflexivity.
+Qed.
+
+End Generic.
+
+(** * The code as it is: [col_M] / [matcher_matches] *)
+Lemma matcher_conj : forall t f r, matcher_matches t f r = conj_over col_M t f r.
+Proof. reflexivity. Qed.
+
+Lemma col_M_sub : forall c v d, col_M c v d = true -> col_M c v d = true.
+Proof. auto. Qed.
+
+
+Theorem cur_matcher_is_where : forall t f r,
+  columns_ok t = true -> filter_transparent t f = true -> row_representable t r = true ->
+  matcher_matches t f r = is_tt (eval_simple (dfilter_of t f) r).
+Proof. exact (transparent_matcher_is_where col_M matcher_matches col_M_sub matcher_conj). Qed.
+
+Theorem cur_one_transparent : forall t fs f contents,
+  table_ok t = true -> columns_ok t = true -> In f fs ->
+  filter_transparent t f = true ->
+  forallb (row_representable t) contents = true ->
+  List.filter (matcher_matches t f) (select_rows (batch_wclause t fs) contents) = unbatched_result t f contents.
+Proof. exact (batched_one_transparent col_M matcher_matches col_M_sub matcher_conj). Qed.
+
+Theorem cur_transparent_exact : forall t fs contents,
+  table_ok t = true -> columns_ok t = true ->
+  forallb (filter_transparent t) fs = true ->
+  forallb (row_representable t) contents = true ->
+  batched_results t fs contents = map (fun f => unbatched_result t f contents) fs.
+Proof. exact (batched_transparent_exact col_M matcher_matches col_M_sub matcher_conj). Qed.
+
+Theorem cur_transparent_exact_any_arrival : forall t fs arrival contents,
+  table_ok t = true -> columns_ok t = true ->
+  forallb (filter_transparent t) fs = true ->
+  forallb (row_representable t) contents = true ->
+  Forall (fun ir => snd ir = unbatched_result t (nth_filter fs (fst ir)) contents)
+         (batched_by_arrival t fs arrival contents).
+Proof. exact (batched_transparent_exact_any_arrival col_M matcher_matches col_M_sub matcher_conj). Qed.
+
+Theorem cur_transparency_necessary : forall t f,
+  columns_ok t = true -> cols_distinct t = true ->
+  filter_comparable t f = true -> filter_transparent t f = false ->
+  exists r, In r (witness_rows t f) /\ row_representable t r = true
+            /\ hd [] (batched_results t [f; []] [r]) <> unbatched_result t f [r].
+Proof. exact (transparency_necessary col_M matcher_matches col_M_sub matcher_conj). Qed.
+
+Theorem cur_transparency_exact : forall t f,
+  table_ok t = true -> columns_ok t = true -> cols_distinct t = true -> filter_comparable t f = true ->
   (filter_transparent t f = true <->
    forall others contents, forallb (row_representable t) contents = true ->
      hd [] (batched_results t (f :: others) contents) = unbatched_result t f contents).
+Proof. exact (transparency_exact col_M matcher_matches col_M_sub matcher_conj). Qed.
+
+(** * The earlier hypothesis implies the exact one *)
+Lemma scalar_comparable : forall c v, scalar_typed (base_ty (c_ty c)) v = true -> comparable c (base_dval v) = true.
 Proof.
-  intros t f Ht Hc Hd Hcmp. split.
-  - intros H others contents Hrep. unfold batched_results. cbn [map hd].
-    apply batched_one_transparent; auto. left; reflexivity.
-  - intros H. destruct (filter_transparent t f) eqn:E; [reflexivity|].
-    destruct (transparency_necessary t f Hc Hd Hcmp E) as (r & _ & Hr & Hne).
-    exfalso. apply Hne. apply H. cbn [forallb]. rewrite Hr. reflexivity.
+  intros c v H. unfold comparable. destruct (base_ty (c_ty c)); destruct v; simpl in H; try discriminate; reflexivity.
+Qed.
+
+Lemma exactly_typed_comparable : forall c v,
+  exactly_typed c v = true -> comparable c (valuer (c_implicitnull c) v) = true.
+Proof.
+  intros c v H. destruct (exactly_typed_shape _ _ H) as [fv Hc Hv _ _|a v' Hv _|v' Hv].
+  - rewrite Hv. reflexivity.
+  - cbn [valuer]. apply scalar_comparable. exact Hv.
+  - destruct (valuer_scalar _ _ (c_implicitnull c) Hv) as [E _]. rewrite E.
+    destruct (c_implicitnull c && is_zero v'); [reflexivity|apply scalar_comparable; exact Hv].
+Qed.
+
+Theorem exactly_typed_transparent : forall t f,
+  columns_ok t = true -> filter_exactly_typed t f = true -> filter_transparent t f = true.
+Proof.
+  intros t f Hc H. unfold filter_exactly_typed in H. rewrite forallb_forall in H.
+  unfold filter_transparent, filter_transparent_g, filter_comparable. apply andb_true_intro. split.
+  - apply forallb_forall. intros c Hin. specialize (H c Hin). unfold on_col.
+    destruct (lookup (c_name c) f) as [v|]; [|reflexivity]. apply exactly_typed_comparable. exact H.
+  - apply orb_true_intro. left. apply forallb_forall. intros c Hin. specialize (H c Hin). unfold on_col.
+    destruct (lookup (c_name c) f) as [v|]; [|reflexivity]. apply (col_agrees_complete col_M). intros d Hr.
+    exact (column_match c v d (column_ok_in t c Hc Hin) H Hr).
+Qed.
+
+
+
+(** * The repaired code (C10-fix-2): [col_Mf] / [matcher_matches_fixed] *)
+Lemma forallb_andb : forall (A : Type) (p q : A -> bool) l,
+  forallb p l && forallb q l = forallb (fun x => p x && q x) l.
+Proof.
+  intros A p q l. induction l as [|x l IH]; [reflexivity|]. cbn [forallb]. rewrite <- IH.
+  destruct (p x), (q x), (forallb p l), (forallb q l); reflexivity.
+Qed.
+
+Lemma forallb_ext_all : forall (A : Type) (p q : A -> bool) l, (forall x, p x = q x) -> forallb p l = forallb q l.
+Proof. intros A p q l H. induction l as [|x l IH]; [reflexivity|]. cbn [forallb]. rewrite H, IH. reflexivity. Qed.
+
+Lemma fixed_conj : forall t f r, matcher_matches_fixed t f r = conj_over col_Mf t f r.
+Proof.
+  intros t f r. unfold matcher_matches_fixed, matcher_matches, tester_test, conj_over. rewrite forallb_andb.
+  apply forallb_ext_all. intros c. unfold on_col. destruct (lookup (c_name c) f); reflexivity.
+Qed.
+
+Lemma col_Mf_sub : forall c v d, col_Mf c v d = true -> col_M c v d = true.
+Proof. intros c v d H. unfold col_Mf in H. apply andb_prop in H. exact (proj1 H). Qed.
+
+(** What a representable stored value serializes to after a round trip through the struct field. *)
+Definition canon (bt : gty) (d : dval) : dval :=
+  match bt, d with
+  | TyBool, DInt z => DBool (negb (Z.eqb z 0))
+  | _, _ => d
+  end.
+
+Lemma is_zero_field : forall bt d, is_bytes_ty bt = false -> class_ok bt d = true ->
+  is_zero (field_value bt d) = dval_is_zero d.
+Proof.
+  intros bt d Hb H. destruct bt as [k n|n| | | |bt']; try discriminate; destruct d; cbn [class_ok] in H; try discriminate;
+    cbn [field_value is_zero dval_is_zero]; try reflexivity.
+  - rewrite (wrap_kind_id _ _ H). reflexivity.
+  - apply negb_involutive.
+Qed.
+
+Lemma implicitnull_not_bytes : forall c, column_ok c = true -> c_implicitnull c = true -> is_bytes_ty (c_ty c) = false.
+Proof.
+  intros c H Hi. unfold column_ok in H. rewrite Hi in H. apply andb_prop in H. destruct H as [H _].
+  cbn [andb] in H. apply negb_true_iff in H. apply orb_false_elim in H. exact (proj2 H).
+Qed.
+
+Lemma base_field : forall bt d, class_ok bt d = true -> base_dval (field_value bt d) = canon bt d.
+Proof.
+  intros bt d H. destruct bt as [k n|n| | | |bt']; destruct d; cbn [class_ok] in H; try discriminate;
+    cbn [field_value base_dval canon]; try reflexivity.
+  rewrite (wrap_kind_id _ _ H), (wrap64_id _ _ H). reflexivity.
+Qed.
+
+Lemma canon_null : forall bt, canon bt DNull = DNull.
+Proof. destruct bt; reflexivity. Qed.
+
+Lemma valuer_nonptr_field : forall bt i d, is_ptr_ty bt = false -> class_ok bt d = true ->
+  valuer i (field_value bt d) = if i && is_zero (field_value bt d) then DNull else base_dval (field_value bt d).
+Proof.
+  intros bt i d Hb Hc. destruct bt as [k n|n| | | |bt']; try discriminate; destruct d; cbn [class_ok] in Hc; try discriminate; reflexivity.
+Qed.
+
+Lemma valuer_field : forall c d, column_ok c = true -> representable c d = true ->
+  valuer (c_implicitnull c) (field_value (c_ty c) d) = canon (base_ty (c_ty c)) d.
+Proof.
+  intros c d Hc Hr. destruct (column_shape c Hc) as [Hb Hs].
+  destruct (dval_eqb d DNull) eqn:Ed.
+  - apply dval_eqb_eq in Ed. subst d. rewrite canon_null. unfold representable in Hr.
+    destruct Hs as [E|[E Hi]].
+    + rewrite <- E in Hb. rewrite Hb in Hr. cbn [orb] in Hr.
+      destruct (c_ty c) as [k n|n| | | |bt']; try discriminate; cbn [field_value valuer is_zero is_bytes_ty] in *;
+        try (rewrite orb_false_r in Hr; rewrite Hr; cbn [andb]; try rewrite Z.eqb_refl; reflexivity);
+        reflexivity.
+    + rewrite E. reflexivity.
+  - assert (Hd : d <> DNull) by (intros ->; discriminate).
+    assert (Hcls := rep_nonnull_class c d Hr Hd).
+    assert (Hnz : c_implicitnull c && dval_is_zero d = false).
+    { unfold representable in Hr. destruct d; try contradiction; apply andb_prop in Hr; destruct Hr as [Hr _];
+        apply negb_true_iff in Hr; exact Hr. }
+    destruct Hs as [E|[E Hi]].
+    + replace (field_value (c_ty c) d) with (field_value (base_ty (c_ty c)) d) by (rewrite <- E; reflexivity).
+      rewrite (valuer_nonptr_field _ _ _ Hb Hcls).
+      assert (Hz : c_implicitnull c && is_zero (field_value (base_ty (c_ty c)) d) = false).
+      { destruct (c_implicitnull c) eqn:Ei; [|reflexivity]. cbn [andb] in *.
+        assert (Hnb := implicitnull_not_bytes c Hc Ei). rewrite E in Hnb.
+        rewrite (is_zero_field _ _ Hnb Hcls). exact Hnz. }
+      rewrite Hz. apply base_field. exact Hcls.
+    + rewrite E. cbn [field_value]. destruct d; try contradiction; cbn [valuer]; apply base_field; exact Hcls.
+Qed.
+
+(** The tester is sound for SQL: a representable stored value it accepts is one the caller's own atom selects. *)
+Lemma col_T_W : forall c v d, column_ok c = true -> representable c d = true -> col_T c v d = true -> col_W c v d = true.
+Proof.
+  intros c v d Hc Hr H. unfold col_T in H. rewrite (valuer_field c d Hc Hr) in H. apply dval_eqb_eq in H.
+  unfold col_W. rewrite H.
+  destruct (dval_eqb d DNull) eqn:Ed.
+  - apply dval_eqb_eq in Ed. subst d. rewrite canon_null. reflexivity.
+  - assert (Hd : d <> DNull) by (intros ->; discriminate).
+    assert (Hcls := rep_nonnull_class c d Hr Hd).
+    destruct (base_ty (c_ty c)) as [k n|n| | | |bt']; destruct d; cbn [class_ok] in Hcls; try discriminate;
+      cbn [canon atom_of sql_eq num_of text_of is_tt]; try rewrite Z.eqb_refl; try rewrite String.eqb_refl; try reflexivity.
+    apply orb_prop in Hcls. destruct Hcls as [E|E]; apply Z.eqb_eq in E; subst; reflexivity.
+Qed.
+
+(** Soundness of the repaired batch function, for EVERY filter (no hypothesis on the Go types of its values):
+    a row handed to a caller is a row of the caller's own query. *)
+Theorem fixed_matcher_implies_where : forall t f r,
+  columns_ok t = true -> row_representable t r = true ->
+  matcher_matches_fixed t f r = true -> is_tt (eval_simple (dfilter_of t f) r) = true.
+Proof.
+  intros t f r Hc Hr H. rewrite fixed_conj in H. rewrite where_conj. unfold conj_over in *.
+  rewrite forallb_forall in H. apply forallb_forall. intros c Hin. specialize (H c Hin). unfold on_col in *.
+  destruct (lookup (c_name c) f) as [v|]; [|reflexivity].
+  unfold col_Mf in H. apply andb_prop in H. destruct H as [_ H].
+  apply col_T_W; [apply (column_ok_in t); assumption|apply (rep_cell t); assumption|exact H].
+Qed.
+
+Theorem fixed_never_hands_foreign_rows : forall t fs f contents,
+  table_ok t = true -> columns_ok t = true -> In f fs ->
+  forallb (row_representable t) contents = true ->
+  List.filter (matcher_matches_fixed t f) (select_rows (batch_wclause t fs) contents)
+  = List.filter (matcher_matches_fixed t f) (unbatched_result t f contents).
+Proof.
+  intros t fs f contents Ht Hc Hf Hrep. unfold unbatched_result, select_rows.
+  rewrite forallb_forall in Hrep.
+  induction contents as [|r contents IH]; [reflexivity|].
+  assert (Hr : row_representable t r = true) by (apply Hrep; left; reflexivity).
+  assert (IH' := IH (fun x Hx => Hrep x (or_intror Hx))). clear IH.
+  cbn [List.filter eval_wclause].
+  destruct (is_tt (eval_simple (dfilter_of t f) r)) eqn:Es.
+  - rewrite (batch_clause_covers t fs f r Ht Hf (is_tt_true _ Es)). cbn [is_tt List.filter]. rewrite IH'. reflexivity.
+  - assert (Hm : matcher_matches_fixed t f r = false).
+    { destruct (matcher_matches_fixed t f r) eqn:Em; [|reflexivity].
+      rewrite (fixed_matcher_implies_where t f r Hc Hr Em) in Es. discriminate. }
+    destruct (is_tt (eval_wclause (batch_wclause t fs) r)); [cbn [List.filter]; rewrite Hm|]; exact IH'.
+Qed.
+
+Lemma filter_sub : forall (A : Type) (p : A -> bool) l x, In x (List.filter p l) -> In x l.
+Proof. intros A p l x H. apply filter_In in H. exact (proj1 H). Qed.
+
+Corollary fixed_rows_are_own_rows : forall t fs f contents r,
+  table_ok t = true -> columns_ok t = true -> In f fs ->
+  forallb (row_representable t) contents = true ->
+  In r (List.filter (matcher_matches_fixed t f) (select_rows (batch_wclause t fs) contents)) ->
+  In r (unbatched_result t f contents).
+Proof.
+  intros t fs f contents r Ht Hc Hf Hrep Hin. rewrite (fixed_never_hands_foreign_rows t fs f contents Ht Hc Hf Hrep) in Hin.
+  exact (filter_sub _ _ _ _ Hin).
+Qed.
+
+(** The exact domain of full transparency for the repaired code. *)
+Theorem fix_one_transparent : forall t fs f contents,
+  table_ok t = true -> columns_ok t = true -> In f fs ->
+  filter_transparent_fixed t f = true ->
+  forallb (row_representable t) contents = true ->
+  List.filter (matcher_matches_fixed t f) (select_rows (batch_wclause t fs) contents) = unbatched_result t f contents.
+Proof. exact (batched_one_transparent col_Mf matcher_matches_fixed col_Mf_sub fixed_conj). Qed.
+
+Theorem fix_transparent_exact : forall t fs contents,
+  table_ok t = true -> columns_ok t = true ->
+  forallb (filter_transparent_fixed t) fs = true ->
+  forallb (row_representable t) contents = true ->
+  batched_results_fixed t fs contents = map (fun f => unbatched_result t f contents) fs.
+Proof. exact (batched_transparent_exact col_Mf matcher_matches_fixed col_Mf_sub fixed_conj). Qed.
+
+Theorem fix_transparency_necessary : forall t f,
+  columns_ok t = true -> cols_distinct t = true ->
+  filter_comparable t f = true -> filter_transparent_fixed t f = false ->
+  exists r, In r (witness_rows_fixed t f) /\ row_representable t r = true
+            /\ hd [] (batched_results_fixed t [f; []] [r]) <> unbatched_result t f [r].
+Proof. exact (transparency_necessary col_Mf matcher_matches_fixed col_Mf_sub fixed_conj). Qed.
+
+Theorem fix_transparency_exact : forall t f,
+  table_ok t = true -> columns_ok t = true -> cols_distinct t = true -> filter_comparable t f = true ->
+  (filter_transparent_fixed t f = true <->
+   forall others contents, forallb (row_representable t) contents = true ->
+     hd [] (batched_results_fixed t (f :: others) contents) = unbatched_result t f contents).
+Proof. exact (transparency_exact col_Mf matcher_matches_fixed col_Mf_sub fixed_conj). Qed.
+
+(** The repair takes nothing away from the filters of the earlier hypothesis: on an exactly typed filter the
+    tester accepts whatever the matcher accepts. *)
+Lemma scalar_W_T : forall bt v d,
+  scalar_typed bt v = true -> class_ok bt d = true ->
+  is_tt (sql_eq d (base_dval v)) = true -> canon bt d = base_dval v.
+Proof.
+  intros bt v d Ht Hc H.
+  destruct bt as [k n|n| | | |bt']; destruct v; simpl in Ht; try discriminate;
+    destruct d; cbn [class_ok] in Hc; try discriminate;
+    cbn [sql_eq base_dval num_of text_of is_tt canon] in H |- *.
+  - apply andb_prop in Ht. destruct Ht as [_ Hz]. rewrite (wrap64_id _ _ Hz) in *.
+    rewrite eqb4 in H. destruct (z0 =? z)%Z eqn:E; [apply Z.eqb_eq in E; subst; reflexivity|discriminate].
+  - destruct (String.eqb s0 s) eqn:E; [apply String.eqb_eq in E; subst; reflexivity|discriminate].
+  - apply orb_prop in Hc. destruct Hc as [E|E]; apply Z.eqb_eq in E; subst; destruct b; try discriminate; reflexivity.
+  - destruct (q0 =? q)%Z eqn:E; [apply Z.eqb_eq in E; subst; reflexivity|discriminate].
+  - destruct (String.eqb s0 s) eqn:E; [apply String.eqb_eq in E; subst; reflexivity|discriminate].
+Qed.
+
+Lemma dval_eqb_refl : forall d, dval_eqb d d = true.
+Proof. destruct d; cbn [dval_eqb]; try reflexivity; try apply Z.eqb_refl; try apply String.eqb_refl. destruct b; reflexivity. Qed.
+
+Lemma exactly_typed_W_T : forall c v d,
+  column_ok c = true -> exactly_typed c v = true -> representable c d = true ->
+  col_W c v d = true -> col_T c v d = true.
+Proof.
+  intros c v d Hc Ht Hr Hw. unfold col_T. rewrite (valuer_field c d Hc Hr).
+  unfold col_W in Hw.
+  destruct (dval_eqb d DNull) eqn:Ed.
+  - apply dval_eqb_eq in Ed. subst d. rewrite canon_null.
+    destruct (valuer (c_implicitnull c) v); try reflexivity; discriminate.
+  - assert (Hd : d <> DNull) by (intros ->; discriminate).
+    assert (Hcls := rep_nonnull_class c d Hr Hd).
+    assert (Hsc : forall v', scalar_typed (base_ty (c_ty c)) v' = true ->
+              is_tt (atom_of d (base_dval v')) = true -> dval_eqb (base_dval v') (canon (base_ty (c_ty c)) d) = true).
+    { intros v' Hv Ha. change (atom_of d (base_dval v')) with (atom_value d (base_dval v')) in Ha.
+      rewrite atom_nonnull in Ha by (eapply base_dval_nonnull; exact Hv).
+      rewrite (scalar_W_T _ _ _ Hv Hcls Ha). apply dval_eqb_refl. }
+    destruct (exactly_typed_shape _ _ Ht) as [fv Hco Hv _ _|a v' Hv _|v' Hv].
+    + rewrite Hv in Hw. cbn [atom_of] in Hw. destruct d; discriminate.
+    + cbn [valuer] in *. apply Hsc; assumption.
+    + destruct (valuer_scalar _ _ (c_implicitnull c) Hv) as [E _]. rewrite E in *.
+      destruct (c_implicitnull c && is_zero v').
+      * cbn [atom_of] in Hw. destruct d; discriminate.
+      * apply Hsc; assumption.
+Qed.
+
+Theorem fix_keeps_exactly_typed : forall t f r,
+  columns_ok t = true -> filter_exactly_typed t f = true -> row_representable t r = true ->
+  matcher_matches_fixed t f r = matcher_matches t f r.
+Proof.
+  intros t f r Hc Ht Hr. unfold matcher_matches_fixed.
+  destruct (matcher_matches t f r) eqn:Em; [|reflexivity]. cbn [andb].
+  assert (Hw := Em). rewrite (matcher_is_where t f r Hc Ht Hr), where_conj in Hw.
+  unfold tester_test. unfold conj_over in Hw. rewrite forallb_forall in Hw. apply forallb_forall. intros c Hin.
+  specialize (Hw c Hin). unfold on_col in Hw. unfold filter_exactly_typed in Ht. rewrite forallb_forall in Ht. specialize (Ht c Hin).
+  destruct (lookup (c_name c) f) as [v|]; [|reflexivity].
+  apply (exactly_typed_W_T c v _ (column_ok_in t c Hc Hin) Ht (rep_cell t r c Hr Hin) Hw).
+Qed.
+
+Theorem exactly_typed_transparent_fixed : forall t f,
+  columns_ok t = true -> filter_exactly_typed t f = true -> filter_transparent_fixed t f = true.
+Proof.
+  intros t f Hc H. unfold filter_exactly_typed in H. rewrite forallb_forall in H.
+  unfold filter_transparent_fixed, filter_transparent_g, filter_comparable. apply andb_true_intro. split.
+  - apply forallb_forall. intros c Hin. specialize (H c Hin). unfold on_col.
+    destruct (lookup (c_name c) f) as [v|]; [|reflexivity]. apply exactly_typed_comparable. exact H.
+  - apply orb_true_intro. left. apply forallb_forall. intros c Hin. specialize (H c Hin). unfold on_col.
+    destruct (lookup (c_name c) f) as [v|]; [|reflexivity]. apply (col_agrees_complete col_Mf). intros d Hr.
+    assert (Hok := column_ok_in t c Hc Hin).
+    assert (Hm : col_M c v d = col_W c v d) by exact (column_match c v d Hok H Hr).
+    unfold col_Mf. rewrite Hm. destruct (col_W c v d) eqn:Ew; [|reflexivity].
+    rewrite (exactly_typed_W_T c v d Hok H Hr Ew). reflexivity.
 Qed.
